@@ -3,8 +3,16 @@
    periodicity / handedness, taper, and the external thread never intersects the material left
    after cutting the matching internal thread, for every tolerance >= 0. *)
 From Coq Require Import Reals ZArith QArith String Ascii List Lra.
-From Sdfx Require Import Num.Ops Num.RInst Num.QInst Geo.Vec Generated.Threads
-                         Sdf.Screw Sdf.ThreadDB Sdf.ScrewR Sdf.IsoProfile.
+From Sdfx Require Import Num.Ops.
+From Sdfx Require Import Num.RInst.
+From Sdfx Require Import Num.QInst.
+From Sdfx Require Import Geo.Vec.
+From Sdfx Require Import Generated.Threads.
+From Sdfx Require Import Sdf.Screw.
+From Sdfx Require Import Sdf.ThreadDB.
+From Sdfx Require Import Sdf.ScrewR.
+From Sdfx Require Import Sdf.IsoProfile.
+From Sdfx Require Import Sdf.IsoClosed.
 Import ListNotations.
 
 (* ------------------------------------------------------------------ the database (rows regenerated
@@ -164,6 +172,14 @@ Theorem C18_iso_profiles_nest : forall r p tol, 0 < p -> 0 <= tol ->
   under (@iso_ext_outline ROps r p) x y -> under (@iso_int_outline ROps (r + tol) p) x y.
 Proof. exact iso_outlines_nest. Qed.
 Print Assumptions C18_iso_profiles_nest.
+
+(* the outlines are the vertex lists the model of ISOThread (corner smoothing of sdf/poly.go included)
+   computes over the reals *)
+Theorem C18_iso_thread_is_outline : forall r p, 0 < p ->
+  @iso_thread ROps r p true = iso_polygon_of_outline p (@iso_ext_outline ROps r p) /\
+  @iso_thread ROps r p false = iso_polygon_of_outline p (@iso_int_outline ROps r p).
+Proof. exact iso_thread_is_outline. Qed.
+Print Assumptions C18_iso_thread_is_outline.
 
 (* bolt thread (radius r - te) against the nut material left by the internal thread (radius r + ti):
    no common interior point, any lead (starts), any taper, te, ti >= 0 *)
